@@ -26,6 +26,7 @@ def dispatch (line : String) : String :=
   | "mrgraw" :: args => Mg.handleRaw args
   | "lim" :: args => Lim.handle args
   | "a2l" :: args => Tree.handle args
+  | "a2lfresh" :: args => Tree.handleFresh args
   | "lex" :: args => Lex.handle args
   | "chk" :: args => Gr.handleChk false args
   | "chkset" :: args => Gr.handleChk true args
